@@ -135,20 +135,20 @@ Proof.
 Qed.
 
 Lemma parse_loop_ok :
-  forall f s toplevel acc tail, sc_inv s -> remaining s < Z.of_nat f ->
-    pres_ok s 0 (parse_loop src f s toplevel acc tail).
+  forall f s toplevel acc tail nc, sc_inv s -> remaining s < Z.of_nat f ->
+    pres_ok s 0 (parse_loop src f s toplevel acc tail nc).
 Proof.
-  induction f as [|f IH]; intros s toplevel acc tail Hi Hf.
+  induction f as [|f IH]; intros s toplevel acc tail nc Hi Hf.
   - pose proof (remaining_nonneg s Hi). lia.
   - pose proof (remaining_nonneg s Hi) as Hnn. cbn [parse_loop]. unfold EOS in *.
-    assert (Hgo : forall s' tl acc' tail', sc_inv s' -> remaining s' <= remaining s - 1 ->
-                   pres_ok s 0 (parse_loop src f s' tl acc' tail')).
-    { intros s' tl acc' tail' Hi' Hr'. specialize (IH s' tl acc' tail' Hi' ltac:(lia)).
-      destruct (parse_loop src f s' tl acc' tail'); cbn in *; try assumption.
+    assert (Hgo : forall s' tl acc' tail' nc', sc_inv s' -> remaining s' <= remaining s - 1 ->
+                   pres_ok s 0 (parse_loop src f s' tl acc' tail' nc')).
+    { intros s' tl acc' tail' nc' Hi' Hr'. specialize (IH s' tl acc' tail' nc' Hi' ltac:(lia)).
+      destruct (parse_loop src f s' tl acc' tail' nc'); cbn in *; try assumption.
       destruct IH; split; [assumption|lia]. }
     assert (Hcls : forall s', sc_inv s' -> remaining s' <= remaining s ->
               pres_ok s 0 (match parse_class_top src s' with
-                           | POk c s4 => parse_loop src f s4 toplevel (acc ++ [PSingle c]) tail
+                           | POk c s4 => parse_loop src f s4 toplevel (acc ++ [PSingle c]) tail nc
                            | PErr => PErr
                            | PFuel => PFuel
                            end)).
@@ -171,12 +171,12 @@ Proof.
     brk.
     { (* ( *)
       assert (0 < remaining s) by lia.
-      step. step. brk.
+      step. brk; [exact I|]. step. brk.
       - step. apply Hgo; [assumption|lia].
-      - match goal with |- context [parse_loop src f ?sx false [] false] =>
+      - match goal with |- context [parse_loop src f ?sx false [] false ?n1] =>
           match goal with Hx : sc_inv sx |- _ =>
-            pose proof (IH sx false [] false Hx ltac:(lia)) as Hin;
-            destruct (parse_loop src f sx false [] false) as [[sub t] s4| |]; cbn in Hin; [|exact I|contradiction]
+            pose proof (IH sx false [] false n1 Hx ltac:(lia)) as Hin;
+            destruct (parse_loop src f sx false [] false n1) as [[[sub t] nc2] s4| |]; cbn in Hin; [|exact I|contradiction]
           end end.
         destruct Hin as [Hi4 Hr4].
         step. brk; [exact I|]. step. apply Hgo; [assumption|lia]. }
@@ -203,16 +203,16 @@ Proof.
   assert (Hrem0 : remaining p sc_init <= len p).
   { unfold remaining, sc_init, EOS; cbn. lia. }
   assert (Hfin : forall s2, sc_inv p s2 -> remaining p s2 <= len p ->
-            match parse_loop p (parse_fuel p) s2 true [] false with
-            | POk (l, tail) _ => True | PErr => True | PFuel => False end).
-  { intros s2 Hi2 Hr2. pose proof (parse_loop_ok p (parse_fuel p) s2 true [] false Hi2) as H.
+            match parse_loop p (parse_fuel p) s2 true [] false 0 with
+            | POk (l, tail, _) _ => True | PErr => True | PFuel => False end).
+  { intros s2 Hi2 Hr2. pose proof (parse_loop_ok p (parse_fuel p) s2 true [] false 0 Hi2) as H.
     assert (remaining p s2 < Z.of_nat (parse_fuel p)) by (unfold parse_fuel, len in *; lia).
-    specialize (H H0). destruct (parse_loop p (parse_fuel p) s2 true [] false) as [[l t] s'| |]; cbn in H; auto. }
+    specialize (H H0). destruct (parse_loop p (parse_fuel p) s2 true [] false 0) as [[[l t] n] s'| |]; cbn in H; auto. }
   destruct (ch =? 94).
   - destruct (sc_next p s1) as [c2 s2] eqn:E2. cbn [snd].
     destruct (next_spec p _ _ _ E2 Hi1) as (Hi2 & Hr2 & _).
     specialize (Hfin s2 Hi2 ltac:(lia)).
-    destruct (parse_loop p (parse_fuel p) s2 true [] false) as [[l t] s'| |]; try discriminate; contradiction.
+    destruct (parse_loop p (parse_fuel p) s2 true [] false 0) as [[[l t] n] s'| |]; try discriminate; contradiction.
   - specialize (Hfin s1 Hi1 ltac:(lia)).
-    destruct (parse_loop p (parse_fuel p) s1 true [] false) as [[l t] s'| |]; try discriminate; contradiction.
+    destruct (parse_loop p (parse_fuel p) s1 true [] false 0) as [[[l t] n] s'| |]; try discriminate; contradiction.
 Qed.
